@@ -5,7 +5,7 @@ import ast
 import z3
 
 from . import registry as R
-from .engine import (GROUPS, V, VNONE, Unsupported, _fresh, fresh, fresh_value, lift, py)
+from .engine import (ALL_GEN, GEN, GROUPS, null_guard, V, VNONE, Unsupported, _fresh, fresh, fresh_value, lift, py)
 from .sorts import BOOL, INT, PY, REAL, STR, List
 
 
@@ -134,7 +134,7 @@ def cut_loop(eng, node, st, k, ctx, n, lc, guard_fn, pre_body, post_body, index_
     for m in list(mods):
         if "@" in m:
             base, expr = m.split("@", 1)
-            gran.setdefault(base, []).append(z3.simplify(lift(SpecEval(eng, st, pre_state=st.old).value(expr)).t))
+            gran.setdefault(base, []).append(ALL_GEN if expr.strip() == "GEN" else z3.simplify(null_guard(expr, st.env, lift(SpecEval(eng, st, pre_state=st.old).value(expr)).t)))
     mods = [m for m in mods if "@" not in m]
     alloc0 = st.heap.alloc
     eng.havoc_arrays(st, mods)
@@ -182,6 +182,10 @@ def cut_loop(eng, node, st, k, ctx, n, lc, guard_fn, pre_body, post_body, index_
 
     log0 = len(st.wlog)
     declared_names = set(mods) | set(gran) | {"ghost." + g for g in lc.get("ghost_modifies", [])}
+    # object-granular entries promise that, among the objects that existed at loop entry, only the NAMED ones change: one iteration must keep every
+    # other such cell (objects allocated by the loop itself are free).  Arrays as they are at the head of the iteration:
+    head_arrs = {nm: st.heap.arrs[nm] for nm in gran_arrays if nm not in modset}
+    head_owner = st.heap.arrs.get("obj.owner")
 
     def check_declared(s_end):
         for nm in s_end.wlog[log0:]:
@@ -195,6 +199,15 @@ def cut_loop(eng, node, st, k, ctx, n, lc, guard_fn, pre_body, post_body, index_
 
         def end_of_body(s_end):
             check_declared(s_end)
+            for nm_g, head in head_arrs.items():
+                cur = s_end.heap.arrs.get(nm_g)
+                if cur is None or cur.eq(head):
+                    continue
+                o_g = z3.Int(f"o!{next(_fresh)}")
+                own_h = head_owner if head_owner is not None else eng.arr(s_end, "obj.owner")
+                others = z3.And([(z3.Select(own_h, o_g) != GEN) if t_.eq(ALL_GEN) else (o_g != z3.simplify(t_)) for t_ in gran_arrays[nm_g]] + [o_g >= 1, o_g <= alloc0])
+                eng.oblige(s_end, z3.ForAll([o_g], z3.Implies(others, z3.Select(cur, o_g) == z3.Select(head, o_g))), "frame", f"loop{n}:{nm_g}", node,
+                           text=f"one iteration changes {nm_g} only at the objects the loop contract names (and at objects the loop allocated)")
             post_body(s_end)
             for n_ in stable:
                 # a local the contract declares stable is not havocked; the body must leave it with the value it had at loop entry
